@@ -101,8 +101,15 @@ func exprDepth(v ssa.Value, d int) string {
 	case *ssa.Alloc:
 		return "&local"
 	case *ssa.FieldAddr:
-		return "&" + exprDepth(x.X, d+1) + "." + fieldName(x.X.Type(), x.Field)
+		if isEmbeddedField(x.X.Type(), x.Field) {
+			// a struct embedded for grouping: its fields are named as if they were the outer struct's own
+			return exprDepth(x.X, d+1)
+		}
+		return "&" + strings.TrimPrefix(exprDepth(x.X, d+1), "&") + "." + fieldName(x.X.Type(), x.Field)
 	case *ssa.Field:
+		if isEmbeddedField(x.X.Type(), x.Field) {
+			return exprDepth(x.X, d+1)
+		}
 		return exprDepth(x.X, d+1) + "." + fieldName(x.X.Type(), x.Field)
 	case *ssa.IndexAddr:
 		return "&" + exprDepth(x.X, d+1) + "[" + exprDepth(x.Index, d+1) + "]"
@@ -195,6 +202,43 @@ func exprDepth(v ssa.Value, d int) string {
 		return "phi(" + strings.Join(es, "|") + ")"
 	}
 	return fmt.Sprintf("%T", v)
+}
+
+// isEmbeddedField: field i of struct (pointer) type t is an embedded struct (by value or by pointer).
+func isEmbeddedField(t types.Type, i int) bool {
+	if p, ok := t.Underlying().(*types.Pointer); ok {
+		t = p.Elem()
+	}
+	st, ok := t.Underlying().(*types.Struct)
+	if !ok || i >= st.NumFields() || !st.Field(i).Embedded() {
+		return false
+	}
+	ft := st.Field(i).Type()
+	if p, ok := ft.Underlying().(*types.Pointer); ok {
+		ft = p.Elem()
+	}
+	_, isStruct := ft.Underlying().(*types.Struct)
+	return isStruct
+}
+
+// outerOf: the object a field address ultimately belongs to, looking through embedded structs:
+// &(&x.machine).ts belongs to x.
+func outerOf(v ssa.Value) ssa.Value {
+	for {
+		switch x := v.(type) {
+		case *ssa.FieldAddr:
+			if isEmbeddedField(x.X.Type(), x.Field) {
+				v = x.X
+				continue
+			}
+		case *ssa.UnOp:
+			if fa, ok := x.X.(*ssa.FieldAddr); ok && x.Op == token.MUL && isEmbeddedField(fa.X.Type(), fa.Field) {
+				v = fa.X // an embedded pointer, loaded
+				continue
+			}
+		}
+		return v
+	}
 }
 
 func fieldName(t types.Type, i int) string {
